@@ -170,6 +170,13 @@ func TestC15Renderers(t *testing.T) {
 				}
 			}
 		}
+		// other renderers of the package run first in this process (the strict encoder, an encoder with
+		// other options): the DEFAULT encoder must not be affected by what they did
+		if rapid.IntRange(0, 3).Draw(rt, "otherRenderersFirst") == 0 {
+			_ = sml.EncodeStrict(it)
+			_ = sml.NewEncoder(sml.WithEncoderStrictMode(true), sml.WithASCIIQuote(sml.QuoteSingle)).Encode(it)
+			classes = append(classes, "history:other-renderers-first")
+		}
 		order := rapid.SampledFrom([]string{"root-only", "root-only", "subs-first", "root-then-subs"}).Draw(rt, "renderOrder")
 		if len(subs) > 0 && order != "root-only" {
 			classes = append(classes, "history:"+order)
